@@ -313,17 +313,15 @@ class MuxT(Base):
                 return None
             p = c.pend['read']
             o, f = op[1], op[2]
-            if (o == 'ok' and p.arg != 4 and isinstance(f, list) and f[1] not in s._tag_map
-                    and not 2 <= f[1] <= s._tag_pool._next):
-                # a frame on a tag the pool has not handed out yet would be put into the pool's free set
-                # (C11's subject, F6) and later collide with a fresh tag; use one that cannot collide
-                f = ['reply', 77]
             data = None
             if o == 'ok':
                 data = pack('!i', FRAME_LEN) if p.arg == 4 else _frame(f)
                 if p.arg != 4:
-                    self.tags.add('frame-' + (f if isinstance(f, str) else
-                                              'reply' if f[1] in s._tag_map else 'reply-unknown-tag'))
+                    kind_ = f if isinstance(f, str) else 'reply' if f[1] in s._tag_map else 'reply-unknown-tag'
+                    if kind_ == 'reply' and s._tag_map[f[1]][2].get(Tag.KEY) is not None and any(
+                            it[1].get(Tag.KEY) == f[1] for it in list(s._send_queue.queue)):
+                        kind_ = 'reply-for-queued-request'
+                    self.tags.add('frame-' + kind_)
             else:
                 self.tags.add('read-%s-at-%s-with-%d-in-flight' % (o, 'hdr' if p.arg == 4 else 'body',
                                                                    min(3, len(s._tag_map))))
@@ -502,10 +500,14 @@ def _mux_cases():
             pre += [['req'], ['wr', 'ok'], ['rd', 'ok', 'junk'], ['rd', 'ok', ['reply', 2]]]
         for k in range(4):
             for written in range(k + 1):
-                for answered in ([None] if written == 0 else [None, 0]):
+                # None: no reply yet; 'first': the first written request is answered; 'queued': the peer answers
+                # the last request while its frame still waits in the send queue (it is then never written)
+                for answered in [None] + (['first'] if written else []) + (['queued'] if k - written >= 2 else []):
                     mid = [['req']] * k + [['wr', 'ok']] * written
-                    if answered is not None:
-                        mid += [['rd', 'ok', 'junk'], ['rd', 'ok', ['reply', 2 if done else 2]]]
+                    if answered == 'first':
+                        mid += [['rd', 'ok', 'junk'], ['rd', 'ok', ['reply', 2]]]
+                    elif answered == 'queued':
+                        mid += [['rd', 'ok', 'junk'], ['rd', 'ok', ['reply', 1 + k]], ['wr', 'ok'], ['wr', 'ok']]
                     for f in fault_kinds:
                         yield pre + mid + f + tail
 
